@@ -423,8 +423,8 @@ def precedence : Spec → Nat
   | .tuple items => precedenceL items
   | .fset items => precedenceL items
   | .ty _ => 2
-  | .lit _ | .pred _ _ | .list _ | .set _ | .dict _ => 0
-  | _ => 1                               -- everything with a `glomit` (T included)
+  | .lit _ | .list _ | .set _ | .dict _ => 0
+  | _ => 1                   -- everything with a `glomit` (T included) or callable
 def precedenceL : List Spec → Nat
   | [] => 0
   | s :: ss => max (precedence s) (precedenceL ss)
@@ -816,6 +816,19 @@ def build (env : OpTable) (flatten : Bool) : OpExpr → Except PyExc Spec
 
 /-! ### constructor errors (inner expressions first, left to right) -/
 
+/- can the spec object be hashed (used as a dict key / set member)?  lists, sets, dicts are
+   not; `M` and `M(…)` define `__eq__` without `__hash__` -/
+mutual
+def hashableSpec : Spec → Bool
+  | .lit v => v.hashable
+  | .list _ | .set _ | .dict _ | .mtype | .msub _ => false
+  | .tuple cs | .fset cs => hashableSpecL cs
+  | _ => true
+def hashableSpecL : List Spec → Bool
+  | [] => true
+  | s :: ss => hashableSpec s && hashableSpecL ss
+end
+
 mutual
 def ctorErr : Spec → Option PyExc
   | .and cs _ => (ctorErrL cs).orElse (fun _ => if cs.isEmpty then some ⟨"ValueError"⟩ else none)
@@ -825,7 +838,9 @@ def ctorErr : Spec → Option PyExc
     (ctorErrC cases).orElse (fun _ => if cases.isEmpty then some ⟨"ValueError"⟩ else none)
   | .check a => match checkInit a with | .error e => some e | .ok _ => none
   | .matchS s _ => ctorErr s
-  | .list cs | .set cs | .fset cs | .tuple cs => ctorErrL cs
+  | .list cs | .tuple cs => ctorErrL cs
+  | .set cs | .fset cs =>
+    (ctorErrL cs).orElse (fun _ => if hashableSpecL cs then none else some ⟨"TypeError"⟩)
   | .dict es => ctorErrD es
   | _ => none
 def ctorErrL : List Spec → Option PyExc
@@ -838,6 +853,8 @@ def ctorErrD : List (KeyKind × Spec × Spec) → Option PyExc
   | [] => none
   | (kind, k, v) :: r =>
     (((ctorErr k).orElse (fun _ =>
+      -- `hash(key)` in Optional / Required, or when the dict display is built
+      if !hashableSpec k then some ⟨"TypeError"⟩ else
       match kind with
       | .plain => none
       | .opt _ => if precedence k != 0 then some ⟨"ValueError"⟩ else none
